@@ -71,8 +71,18 @@ func genC02(c *Ctx) {
 	paths := map[string]int{}
 	for it := 0; it < nShapes; it++ {
 		n := 1 + c.intn(maxN)
+		// long lists around the sizes a chunked or windowed implementation would use, in both groupings
+		bigNs := []int{65, 129, 130, 257}
+		isBig := it >= nShapes-len(bigNs)
+		if isBig {
+			n = bigNs[it-(nShapes-len(bigNs))]
+		}
 		nk, nm := 1+c.intn(n), 1+c.intn(n)
-		switch it % 7 {
+		shape := it % 7
+		if isBig {
+			shape = 2 + it%2
+		}
+		switch shape {
 		case 0:
 			nk, nm = n, n // all distinct
 		case 1:
